@@ -132,7 +132,9 @@ def quoted(prefix, body):
     bad = [c for c in esc if c not in table]
     warned_bad = py[0] == "value" and any(m.startswith("invalid escape sequence") for m in py[2])
     if bad:
-        if all(ord(c) < 128 for c in bad) and py[0] == "value" and not warned_bad:
+        # (CPython reports only the first offending escape, so an earlier
+        # "invalid octal escape" warning can stand in for a later unrecognised one)
+        if all(ord(c) < 128 for c in bad) and py[0] == "value" and not py[2]:
             selfcheck = "table says unrecognised %r, CPython did not warn" % (bad,)
         return dict(cls="syntax-error", rule="unrecognised-escape", selfcheck=selfcheck)
     if py[0] == "error":
